@@ -47,6 +47,10 @@ type Behav struct {
 	RespErr bool
 	// Stalls: before the n-th call (0-based count of calls made so far) wait this long.
 	Stalls map[int]time.Duration
+	// DieAfterInv: the process exits unexpectedly (status 1) once invocation number k has been answered.
+	DieAfterInv int
+	// DieDuringInv: the process exits unexpectedly (status 1) once invocation number k has been dispatched to the runtime.
+	DieDuringInv int
 }
 
 // InvSpec is one planned invocation.
@@ -113,6 +117,8 @@ type Engine struct {
 	Stuck func()
 	// Done overrides the default termination condition.
 	Done func() bool
+	// Hold, when it reports true, keeps the next planned caller from arriving.
+	Hold func() bool
 	// TailIdle keeps the engine running after the last outcome until parties are parked again.
 	TailIdle bool
 
@@ -498,6 +504,24 @@ func (e *Engine) enabled() (acts []action, due time.Duration, hasDue bool) {
 				}})
 			}
 		}
+		if p.Alive && ps.b.DieAfterInv > 0 && len(e.w.Invokes) >= ps.b.DieAfterInv && e.w.Invokes[ps.b.DieAfterInv-1].Call.Done {
+			acts = append(acts, action{"crash " + p.Name, func() {
+				e.r.NextStep()
+				e.r.Fault("process-exit")
+				e.w.Sup.Die(p, 1)
+				e.armEvent(p)
+				e.r.Settle()
+			}})
+		}
+		if p.Alive && ps.b.DieDuringInv > 0 && len(e.w.Invokes) >= ps.b.DieDuringInv && e.w.Invokes[ps.b.DieDuringInv-1].Dispatched && e.w.Invokes[ps.b.DieDuringInv-1].Call.Pending() {
+			acts = append(acts, action{"crash " + p.Name, func() {
+				e.r.NextStep()
+				e.r.Fault("process-exit")
+				e.w.Sup.Die(p, 1)
+				e.armEvent(p)
+				e.r.Settle()
+			}})
+		}
 		if !p.Alive && !p.EventSent {
 			if !ps.evArmed {
 				ps.evArmed = true
@@ -573,7 +597,7 @@ func (e *Engine) enabled() (acts []action, due time.Duration, hasDue bool) {
 		acts = append(acts, action{a.Who + " " + op.Kind, func() { e.doOp(s, op, scripted) }})
 	}
 	// 4. next caller
-	if e.next < len(e.Plan) && e.callersIdle() {
+	if e.next < len(e.Plan) && e.callersIdle() && (e.Hold == nil || !e.Hold()) {
 		spec := e.Plan[e.next]
 		if consider(e.lastDone + spec.Delay) {
 			acts = append(acts, action{"caller", func() {
@@ -699,17 +723,27 @@ func (e *Engine) worldVersion() int {
 	return n
 }
 
-// SupLog returns the supervisor requests in canonical order (step, kind, name).
+// SupLog returns the supervisor requests ordered by fake time, then step, then arrival; requests of the same
+// kind that arrived in the same step (issued by concurrent goroutines) are ordered by name.
 func (w *World) SupLog() []SupReq {
 	reqs := w.Sup.Requests()
 	sort.SliceStable(reqs, func(i, j int) bool {
+		if reqs[i].At != reqs[j].At {
+			return reqs[i].At < reqs[j].At
+		}
 		if reqs[i].Step != reqs[j].Step {
 			return reqs[i].Step < reqs[j].Step
 		}
-		if reqs[i].Kind != reqs[j].Kind {
-			return reqs[i].Kind < reqs[j].Kind
-		}
-		return reqs[i].Name < reqs[j].Name
+		return reqs[i].seq < reqs[j].seq
 	})
+	for i := 0; i < len(reqs); {
+		j := i + 1
+		for j < len(reqs) && reqs[j].Kind == reqs[i].Kind && reqs[j].Step == reqs[i].Step && reqs[j].At == reqs[i].At {
+			j++
+		}
+		seg := reqs[i:j]
+		sort.SliceStable(seg, func(a, b int) bool { return seg[a].Name < seg[b].Name })
+		i = j
+	}
 	return reqs
 }
